@@ -161,6 +161,7 @@ def make_world(driver, kinds, eager=False):
         if driver in ("tridonic", "hasseb"):
             from dalimc.aio.hidworld import HidWorld
             w = HidWorld(driver, bus, callers)
+            w.reorder_reports = True
         else:
             from dalimc.aio.serialworld import SerialWorld
             w = SerialWorld(driver, bus, callers)
